@@ -125,7 +125,9 @@ theorem dcanon_relabel {n : Nat} (hn : n = 3 ∨ n = 4) (pat : List DEdge) (hw :
 
 theorem mem_allDirected {S : List Nat} {e : DEdge} (h : e ∈ allDirected S) :
     (∀ x ∈ e.1, x ∈ S) ∧ (∀ x ∈ e.2, x ∈ S) := by
-  simp only [allDirected, List.mem_flatMap, List.mem_range] at h
+  unfold allDirected at h
+  rw [mem_dedup] at h
+  simp only [List.mem_flatMap, List.mem_range] at h
   obtain ⟨a, _, src, hsrc, h⟩ := h
   by_cases ha : (a == 0) = true
   · simp [ha] at h
